@@ -43,7 +43,7 @@ META = {"C05": {
     "assumptions": ["guard flags are not assigned by a statement of the same hand-written phase "
                     "(static valuation); builder phases obey the single-definition rule"],
     "probes": ["all_guards_false", "merged_conditionals", "nop_skipped", "loop_inside_guard",
-               "storage_order_changed", "nothing_remains"],
+               "storage_order_changed", "nothing_remains", "same_object_lowered_twice"],
 }}
 
 
@@ -306,6 +306,24 @@ def lower_once(ctx, stmts, tape, chooser, extra_phases, permute):
                                                            for s in stmts]),
                         site=where[-1] if where else "")
     tree = parse_ops(rec.ops)
+    if tape.chance(0.3, "lower_again"):
+        # the same description object is lowered once per back end: a second lowering must see
+        # the same phase
+        ctx.count("probe:same_object_lowered_twice")
+        try:
+            ast2 = create_ast_from_phase(code, "p")
+            rec2 = Rec()
+            rec2.lower_ast(ast2)
+            linear2 = [s.id for s in get_statements_in_ast(ast2)]
+            tree2 = parse_ops(rec2.ops)
+        except Violation:
+            raise
+        except Exception as e:
+            raise Violation("relowering-differs", "lowering the same phase object a second time raised %r" % (e,),
+                            site="exception")
+        if serial(tree2) != serial(tree) or linear2 != linear:
+            raise Violation("relowering-differs", "lowering the same phase object a second time gives another "
+                            "program: %r, first %r" % (serial(tree2), serial(tree)), site="second")
     return tree, linear, [s.id for s in storage]
 
 
